@@ -137,7 +137,7 @@ PROPS = {
     },
     "C13": {
         "level": "exploration",
-        "level_text": "Feed cycles against a recording stub witness whose reported checkpoint changes between attempts: all 121 failure words of length <=4 over {get-latest, fetch-proof, update} enumerated, all (witness size, log size) pairs enumerated fault-free, never-clearing faults under a context deadline, unverifiable published checkpoints; the per-attempt argument/ordering contract is checked on the recorded calls. Generated (size, fork) cases run against the real witness through the in-package witnessAdapter, and the adapter itself is checked under injected storage read faults (an error must never look like "no checkpoint yet").",
+        "level_text": "Feed cycles against a recording stub witness whose reported checkpoint changes between attempts: all 121 failure words of length <=4 over {get-latest, fetch-proof, update} enumerated, all (witness size, log size) pairs enumerated fault-free, never-clearing faults under a context deadline, unverifiable published checkpoints; the per-attempt argument/ordering contract is checked on the recorded calls. Generated (size, fork) cases run against the real witness through the in-package witnessAdapter, and the adapter itself is checked under injected storage read faults (an error must never look like no-checkpoint-yet).",
         "level_note": "The exponential back-off uses the real clock (no hook added), so failing cases run as concurrent batches; deadlines are generous and only used for the 'stops when its context ends' clause.",
         "technique": "exhaustive fault-sequence enumeration + property-based testing against a recording stub and the real witness (rapid)",
         "assumptions": HIST_ASSUME,
